@@ -9,6 +9,7 @@ import (
 	"crypto/x509/pkix"
 	"encoding/pem"
 	"fmt"
+	"io"
 	"math/big"
 	"net"
 	"os"
@@ -231,6 +232,12 @@ func (li *Listener) acceptLoop(ctx context.Context) {
 			}
 			buf := make([]byte, 1)
 			n, err := qs.Read(buf)
+			if err == io.EOF && n == 1 {
+				// The dialer closed its writing side right after the initial byte (it has nothing to
+				// send); the end-of-stream mark can arrive together with that byte. That is a
+				// perfectly good connection, the next Read will report EOF again.
+				err = nil
+			}
 			if err != nil {
 				_ = qc.CloseWithError(500, fmt.Sprintf("Read Error: %s", err.Error()))
 				li.sendResult(ctx, nil, err)
